@@ -791,7 +791,16 @@ func (x *Exec) safety(fr *Frame, n *Node, cond string, kind string, pos token.Po
 	if cond == "true" {
 		return
 	}
-	if fr.safe && fr.depth == 0 {
+	wanted := true
+	if fr.contract != nil && len(fr.contract.SafeKinds) > 0 {
+		wanted = false
+		for _, k := range fr.contract.SafeKinds {
+			if k == kind {
+				wanted = true
+			}
+		}
+	}
+	if fr.safe && fr.depth == 0 && wanted {
 		fr.callCount["safe:"+kind]++
 		ob := &Obligation{
 			Name:   fmt.Sprintf("%s#safe:%s#%d", fr.contract.Key(), kind, fr.callCount["safe:"+kind]),
